@@ -50,7 +50,7 @@ def run(ctx):
     quick = ctx.tier == "quick"
     rng = ctx.rng
     # ---- documents
-    n_s, per = (40, 30) if quick else (400, 60)
+    n_s, per = (100, 40) if quick else (400, 60)
     entries, pairs = U.gen_pairs(ctx, impl, n_s, per, [0.0, 0.0, 0.0, 0.0, 0.05, 0.15], broken_share=0.05, schemaless_share=0.1)
     # schemas that are not closed (undefined root / field types): fields are dropped without a build error,
     # the left-inverse theorem does not apply and the comparison is of the printed partial document only
@@ -76,7 +76,7 @@ def run(ctx):
     # ---- field sets against object and interface parents
     fcases = []
     valid_entries = [e for e in entries if e[3]]
-    nfs = 12 if quick else 40
+    nfs = 25 if quick else 40
     texts, meta = [], []
     for e in valid_entries:
         for _ in range(nfs):
@@ -111,7 +111,7 @@ def run(ctx):
         ctx.sample({"family": "xfieldset", "field_set": unhexs(c.split(" ")[2]), "impl": i[:300], "model": m[:300]}, limit=3)
     # ---- mixed documents: schema and executable definitions in one text
     mixed = list(MIXED_EXTRA)
-    for e in valid_entries[: (15 if quick else 150)]:
+    for e in valid_entries[: (40 if quick else 150)]:
         for _ in range(3):
             doc = G.DocGen(e[0], rng, rng.choice([0.0, 0.0, 0.05])).doc(depth=3)
             parts = [p for p in e[0].text.split("\n") if p.strip()] + [p for p in doc.split("\n") if p.strip()]
